@@ -27,7 +27,7 @@ def _case(draw, tier):
     g = draw(gen.int_train_lists(2, nmax, related=draw(st.booleans()), **sz))
     c = gen.to_times(g)
     N = len(c["trains"])
-    c["mrts"] = draw(gen.mrts_for(g))
+    c["mrts"] = draw(gen.mrts_for(g, allow_auto=True))
     c["max_tau"] = draw(gen.maxtau_for(g))
 
     def thr():
@@ -72,7 +72,7 @@ PHASES = [
 
 def _counts(case):
     trs, T0, T1 = ps.fr_trains(case)
-    m = Fr(case["mrts"] or 0)
+    m = ps.mrts_exact(case)
     mt = Fr(case["max_tau"]) if case.get("max_tau") else None
     N = len(trs)
     cnt = [[0] * len(tr) for tr in trs]
